@@ -1,4 +1,4 @@
-import MqttVerif.Proofs.Keepalive
+import MqttVerif.Proofs.Deadline
 import MqttVerif.Proofs.EnvOk
 /-
   C15, "a PINGREQ at least every k seconds": in every state reachable from a fresh factory, a protocol that has a keepalive loop has the
@@ -30,8 +30,34 @@ theorem next_ping_within_keepalive (profile : Nat) (hprof : profile = 1 ∨ prof
   obtain ⟨tm, htm, hst, hkind⟩ := hcall t ht
   exact ⟨t, tm, ht, htm, hst, hkind, hk.loopDue p pr l t tm hp hl ht htm, fun k hk' => hk.period p pr l k hp hl hk'⟩
 
+/-- the deadline bookkeeping (a protocol that is not connected has no deadline; a deadline exists on the timer table and is due within the
+    keepalive) is kept by every operation, whatever the operation -/
+theorem deadline_bookkeeping (w : World) (h : KDInv w) (op : Op) : KDInv (step w op) := kd_step w h op
+
+/-- **"if k seconds pass after a PINGREQ without a PINGRESP it aborts"**: in every reachable state, a protocol that waits for a PINGRESP is
+    connected and its deadline is on the reactor's table -- pending, with the abort callback of that protocol (`alarm_expiry_aborts`), due no
+    later than `now + k`.  It was armed k seconds ahead when a PINGREQ went out with no deadline pending, so it expires k seconds after the
+    oldest PINGREQ still unanswered; a PINGRESP cancels it (`pingresp_cancels`). -/
+theorem abort_deadline (profile : Nat) (hprof : profile = 1 ∨ profile = 2 ∨ profile = 3) (ops : List Op)
+    (henv : EnvRun (World.init profile) ops) (p : Nat) (pr : Proto) (t : Nat)
+    (hp : (run (World.init profile) ops).protos.get? p = some pr) (ha : pr.pingAlarm = some t) :
+    pr.state = .connected ∧ ∃ tm, (run (World.init profile) ops).timers.get? t = some tm ∧ tm.status = .pending ∧ tm.kind = .pingAlarm p ∧
+      ∀ k, pr.pingKeepalive = some k → tm.due ≤ (run (World.init profile) ops).now + ticks k := by
+  have hw : WInv (run (World.init profile) ops) := reachable_inv profile hprof ops henv
+  have hk : KDInv (run (World.init profile) ops) := run_kd ops _ (KDInv.init profile)
+  obtain ⟨tm, htm, hst, hkind⟩ := hw.pingAlarm p pr t hp ha
+  refine ⟨?_, tm, htm, hst, hkind, fun k hkk => hk.alarmDue p pr t tm k hp ha hkk htm⟩
+  cases hs : pr.state with
+  | connected => rfl
+  | idle => have := hk.idleNoAlarm p pr hp (by rw [hs]; decide); rw [ha] at this; cases this
+  | connecting => have := hk.idleNoAlarm p pr hp (by rw [hs]; decide); rw [ha] at this; cases this
+
 /-- not vacuous: after an accepted connect() with keepalive 5 the loop exists, its next run is timer 2, due 5 s (5 * 2^20 ticks) from now -/
 def kaDemo : List Op := [ .build 0, .sethandlers 0 7, .connect 0 (cargs 5 true), .recv 0 [0x20, 2, 0, 0], .recv 0 [0xD0, 0] ]
+/-- and before the PINGRESP the deadline is timer 1, due 5 s ahead -/
+def kaDemo2 : List Op := kaDemo.take 4
+example : ((run (World.init 3) kaDemo2).proto 0).pingAlarm = some 1
+    ∧ ((run (World.init 3) kaDemo2).timers.get? 1).map (fun t => (t.due, t.status)) = some (5 * 1048576, .pending) := by decide +kernel
 theorem kaDemo_env : EnvRun (World.init 3) kaDemo := envRunOk_sound kaDemo (World.init 3) (by decide +kernel)
 example : (((run (World.init 3) kaDemo).proto 0).pingTimer.map fun l => (l.running, l.interval, l.call)) = some (true, 5, some 2)
     ∧ ((run (World.init 3) kaDemo).timers.get? 2).map (fun t => (t.due, t.status)) = some (5 * 1048576, .pending) := by decide +kernel
